@@ -1069,126 +1069,178 @@ def check_c14(res, tier, replay):
         for _ in range(2 if tier == 'quick' else 10):       # the bundled compound strategy (default periods: warm-up 33)
             o, regime = gen_ohlcv(rng, rng.randrange(45, 110))
             cases.append(('MacdRsi', [], [], o, regime))
-    # every 4th case carries one snapshot whose Date is the zero time (e.g. an unparsed CSV date): still one row per snapshot
-    zero_at = {}
-    if not replay:
-        for i, c in enumerate(cases):
-            if i % 4 == 3 and len(c[3]['c']) > 0:
-                zero_at[i] = rng.randrange(len(c[3]['c']))
-    else:
-        zero_at = {i: z for i, z in enumerate(json.load(open(replay)).get('zero_dates', [])) if z is not None and z >= 0}
-    rlines = ['r%d %s' % (i, strat_line(c[0], c[1], c[2], c[3]).replace('STRAT', 'REPORT', 1) if i not in zero_at else
-                          strat_line(c[0], c[1], c[2], c[3]).replace('STRAT', 'REPORTZ', 1) + ' %d' % zero_at[i]) for i, c in enumerate(cases)]
-    slines = ['s%d %s' % (i, strat_line(c[0], c[1], c[2], c[3])) for i, c in enumerate(cases)]
-    # the report as its consumer sees it: rendered by Report.WriteToWriter (lock-step Value() calls); snapshot dates are local
-    # midnights of zones east and west of UTC on part of the cases
-    zones = {i: rng.choice([0, 0, 32400, -18000, 19800, 46800]) for i in range(len(cases))}
-    wlines = ['w%d %s %d' % (i, strat_line(c[0], c[1], c[2], c[3]).replace('STRAT', 'REPORTW', 1), zones[i]) for i, c in enumerate(cases)]
-    go = vlib.run_go(rlines + slines + wlines)
-    bad = 0
+    bad_box = [0]
     cells = set()
     known = collections.defaultdict(int)
     stats = collections.Counter()
-    for i, c in enumerate(cases):
-        name, ns, fs, o, regime = c
-        n = len(o['c'])
-        rep = parse_report(go.get('r%d' % i, 'missing'))
-        cells.add((name, tuple(ns), regime))
-        if rep is None:
-            bad += 1
-            res.violation({'case': case_json(c), 'go_output': go.get('r%d' % i, 'missing')[:300],
-                           'oracle': 'every column and the date axis must close once drained by independent readers'})
-            continue
-        dates, cols = rep
-        problems = []
-        d = n - len(dates)
-        want_dates = [(-1 if zero_at.get(i) == k else k) for k in range(n)]
-        if d < 0 or dates != want_dates[d:]:
-            problems.append('date axis is not a suffix of the snapshot dates: %s…' % dates[:5])
-        for (cn, typ, vals) in cols:
-            stats['columns'] += 1
-            if len(vals) != len(dates):
-                problems.append('column %s has %d values for %d dates' % (cn, len(vals), len(dates)))
-        acts = parse_strat(go.get('s%d' % i, 'missing'))
-        if not problems and d >= 0:
-            for (cn, typ, vals) in cols:
-                if cn == 'Close' and [h2f(v) for v in vals] != o['c'][d:]:
-                    problems.append('Close column is not the closing price of its date')
-            if acts and acts['status'] == 'ok' and len(acts['actions']) >= n:
-                a = acts['actions'][:n]
-                ann = ['B' if x == B else ('S' if x == S else '.') for x in py_norm(a)]
-                outc = [v * 100 for v in py_outcome(o['c'], a)]
-                for (cn, typ, vals) in cols:
-                    if cn == 'annotation':
-                        stats['annotation_columns'] += 1
-                        if vals != ann[d:]:
-                            problems.append('annotation column differs from the normalised actions of the same dates')
-                    if cn == 'Outcome':
-                        stats['outcome_columns'] += 1
-                        got = [h2f(v) for v in vals]
-                        if len(got) != len(outc[d:]) or any(abs(x - y) > 1e-9 * max(1.0, abs(y)) for x, y in zip(got, outc[d:])):
-                            problems.append('Outcome column differs from the outcome of the same dates')
-            # indicator columns: plotted against the dates they were computed for
-            if ':' not in name and SCAT.get(name, {}).get('inds'):
-                vals_ind = indicator_values(c, None)
-                for (cn, typ, vals) in cols:
-                    if typ != 'number' or cn in ('Close', 'Outcome') or vals_ind is None:
-                        continue
-                    got = [h2f(v) for v in vals]
+    traded = collections.Counter()
+    all_rlines = []
 
-                    def matches(w, s, shift):
-                        hit = 0
-                        for k, g in enumerate(got):
-                            j = d + k - w + shift
-                            if j < 0:
-                                continue
-                            if j >= len(s):
-                                return False
-                            e = s[j]
-                            if (e != e and g != g) or e == g or abs(e - g) <= 1e-12 * max(abs(e), abs(g)):
-                                hit += 1
-                            else:
-                                return False
-                        return hit >= 2
-                    ok0 = any(matches(w, s, 0) for (w, s) in vals_ind)
-                    # a (nearly) constant or undefined column matches itself at any shift: nothing can be said about it
-                    informative = len({round(v, 9) for v in got if v == v and abs(v) != math.inf}) >= 4
-                    if ok0:
-                        stats['indicator_columns_aligned'] += 1
-                    elif not informative:
-                        stats['indicator_columns_unmatched'] += 1
-                    else:
-                        off = [sh for sh in (-2, -1, 1, 2) if any(matches(w, s, sh) for (w, s) in vals_ind)]
-                        if off:
-                            problems.append('indicator column %s is drawn %+d day(s) away from the dates it was computed for' % (cn, -off[0]))
-                        else:
-                            stats['indicator_columns_unmatched'] += 1
-        wv = go.get('w%d' % i, 'missing')
-        stats['rendered_reports'] += 1
-        if not wv.startswith('ok writer rows='):
-            if name in findings and ('writer-hang' in wv or ' diff ' in wv) and any('has %d values for %d dates' % (len(dates) + 1, len(dates)) in p for p in problems):
-                pass        # consequence of the recorded surplus value in a column of this report
-            else:
-                problems.append('rendered report (WriteToWriter, dates in zone UTC%+ds): %s' % (zones[i], wv[:200]))
-        if problems:
-            def recorded_shape(p):
-                m = re.match(r'column \S+ has (\d+) values for (\d+) dates', p)
-                return (m and int(m.group(1)) == int(m.group(2)) + 1) or ('is drawn +1 day(s) away' in p)
-            if name in findings and all(recorded_shape(p) for p in problems):
-                known[name] += 1
+    def run_batch(cases, tag):
+        bad = 0
+        # every 4th case carries one snapshot whose Date is the zero time (e.g. an unparsed CSV date): still one row per snapshot
+        zero_at = {}
+        if not replay:
+            for i, c in enumerate(cases):
+                if i % 4 == 3 and len(c[3]['c']) > 0:
+                    zero_at[i] = rng.randrange(len(c[3]['c']))
+        else:
+            zero_at = {i: z for i, z in enumerate(json.load(open(replay)).get('zero_dates', [])) if z is not None and z >= 0}
+        rlines = ['r%d %s' % (i, strat_line(c[0], c[1], c[2], c[3]).replace('STRAT', 'REPORT', 1) if i not in zero_at else
+                              strat_line(c[0], c[1], c[2], c[3]).replace('STRAT', 'REPORTZ', 1) + ' %d' % zero_at[i]) for i, c in enumerate(cases)]
+        slines = ['s%d %s' % (i, strat_line(c[0], c[1], c[2], c[3])) for i, c in enumerate(cases)]
+        # the report as its consumer sees it: rendered by Report.WriteToWriter (lock-step Value() calls); snapshot dates are local
+        # midnights of zones east and west of UTC on part of the cases
+        zones = {i: rng.choice([0, 0, 32400, -18000, 19800, 46800]) for i in range(len(cases))}
+        wlines = ['w%d %s %d' % (i, strat_line(c[0], c[1], c[2], c[3]).replace('STRAT', 'REPORTW', 1), zones[i]) for i, c in enumerate(cases)]
+        go = vlib.run_go(rlines + slines + wlines)
+        for i, c in enumerate(cases):
+            name, ns, fs, o, regime = c
+            n = len(o['c'])
+            rep = parse_report(go.get('r%d' % i, 'missing'))
+            cells.add((name, tuple(ns), regime))
+            if rep is None:
+                bad += 1
+                res.violation({'case': case_json(c), 'go_output': go.get('r%d' % i, 'missing')[:300],
+                               'oracle': 'every column and the date axis must close once drained by independent readers'})
                 continue
-            bad += 1
-            res.violation({'case': case_json(c), 'cases': [case_json(c)], 'zero_dates': [zero_at.get(i, -1)], 'problems': problems, 'columns': [(cn, len(v)) for cn, _, v in cols], 'dates': len(dates),
-                           'oracle': 'one value per date in every column; close / annotation / outcome / indicator values are those of the row date'})
+            dates, cols = rep
+            problems = []
+            d = n - len(dates)
+            want_dates = [(-1 if zero_at.get(i) == k else k) for k in range(n)]
+            if d < 0 or dates != want_dates[d:]:
+                problems.append('date axis is not a suffix of the snapshot dates: %s…' % dates[:5])
+            for (cn, typ, vals) in cols:
+                stats['columns'] += 1
+                if len(vals) != len(dates):
+                    problems.append('column %s has %d values for %d dates' % (cn, len(vals), len(dates)))
+            acts = parse_strat(go.get('s%d' % i, 'missing'))
+            if not problems and d >= 0:
+                for (cn, typ, vals) in cols:
+                    if cn == 'Close' and [h2f(v) for v in vals] != o['c'][d:]:
+                        problems.append('Close column is not the closing price of its date')
+                if acts and acts['status'] == 'ok' and len(acts['actions']) >= n:
+                    a = acts['actions'][:n]
+                    ann = ['B' if x == B else ('S' if x == S else '.') for x in py_norm(a)]
+                    outc = [v * 100 for v in py_outcome(o['c'], a)]
+                    for (cn, typ, vals) in cols:
+                        if cn == 'annotation':
+                            stats['annotation_columns'] += 1
+                            if vals != ann[d:]:
+                                problems.append('annotation column differs from the normalised actions of the same dates')
+                        if cn == 'Outcome':
+                            stats['outcome_columns'] += 1
+                            got = [h2f(v) for v in vals]
+                            if any(v != 0 for v in got):
+                                traded[name] += 1
+                            if len(got) != len(outc[d:]) or any(abs(x - y) > 1e-9 * max(1.0, abs(y)) for x, y in zip(got, outc[d:])):
+                                problems.append('Outcome column differs from the outcome of the same dates')
+                # indicator columns: plotted against the dates they were computed for
+                if ':' not in name and SCAT.get(name, {}).get('inds'):
+                    vals_ind = indicator_values(c, None)
+                    for (cn, typ, vals) in cols:
+                        if typ != 'number' or cn in ('Close', 'Outcome') or vals_ind is None:
+                            continue
+                        got = [h2f(v) for v in vals]
+
+                        def matches(w, s, shift):
+                            hit = 0
+                            for k, g in enumerate(got):
+                                j = d + k - w + shift
+                                if j < 0:
+                                    continue
+                                if j >= len(s):
+                                    return False
+                                e = s[j]
+                                if (e != e and g != g) or e == g or abs(e - g) <= 1e-12 * max(abs(e), abs(g)):
+                                    hit += 1
+                                else:
+                                    return False
+                            return hit >= 2
+                        ok0 = any(matches(w, s, 0) for (w, s) in vals_ind)
+                        # a (nearly) constant or undefined column matches itself at any shift: nothing can be said about it
+                        informative = len({round(v, 9) for v in got if v == v and abs(v) != math.inf}) >= 4
+                        if ok0:
+                            stats['indicator_columns_aligned'] += 1
+                        elif not informative:
+                            stats['indicator_columns_unmatched'] += 1
+                        else:
+                            off = [sh for sh in (-2, -1, 1, 2) if any(matches(w, s, sh) for (w, s) in vals_ind)]
+                            if off:
+                                problems.append('indicator column %s is drawn %+d day(s) away from the dates it was computed for' % (cn, -off[0]))
+                            else:
+                                stats['indicator_columns_unmatched'] += 1
+            wv = go.get('w%d' % i, 'missing')
+            stats['rendered_reports'] += 1
+            if not wv.startswith('ok writer rows='):
+                if name in findings and ('writer-hang' in wv or ' diff ' in wv) and any('has %d values for %d dates' % (len(dates) + 1, len(dates)) in p for p in problems):
+                    pass        # consequence of the recorded surplus value in a column of this report
+                else:
+                    problems.append('rendered report (WriteToWriter, dates in zone UTC%+ds): %s' % (zones[i], wv[:200]))
+            if problems:
+                def recorded_shape(p):
+                    m = re.match(r'column \S+ has (\d+) values for (\d+) dates', p)
+                    return (m and int(m.group(1)) == int(m.group(2)) + 1) or ('is drawn +1 day(s) away' in p)
+                if name in findings and all(recorded_shape(p) for p in problems):
+                    known[name] += 1
+                    continue
+                bad += 1
+                res.violation({'case': case_json(c), 'cases': [case_json(c)], 'zero_dates': [zero_at.get(i, -1)], 'problems': problems, 'columns': [(cn, len(v)) for cn, _, v in cols], 'dates': len(dates),
+                               'oracle': 'one value per date in every column; close / annotation / outcome / indicator values are those of the row date'})
+        bad_box[0] += bad
+        all_rlines.extend(rlines)
+
+    run_batch(cases, '')
+    if not replay:
+        # a report whose strategy never trades shows nothing in its annotation and outcome columns: make sure every strategy has
+        # reports with trades, by adding series and configurations for the ones that stayed flat in the first batch
+        for rnd in range(3):
+            flat = [nm for nm in list(SCAT) + list(WRAPPED) + ['MacdRsi'] if traded[nm] < 2 and nm != 'BuyAndHold']
+            if not flat:
+                break
+            extra = []
+            for nm in flat:
+                for j in range(6):
+                    if nm in SCAT:
+                        ns, fs = SCAT[nm]['cfg'](rng, 6)
+                        ns, fs = list(ns), list(fs)
+                        w = strat_idle(nm, ns)
+                    else:
+                        ns, fs, w = [], [], 40
+                    o, regime = gen_ohlcv(rng, w + rng.choice([30, 60, 90]), ['zigzag', 'walk', 'wide', 'dips', 'up', 'down'][(j + rnd) % 6])
+                    extra.append((nm, ns, fs, o, regime))
+            run_batch(extra, 'x%d' % rnd)
+            cases = cases + extra
+    bad = bad_box[0]
+    rlines = all_rlines
+    # strategy reports as the backtest writes them (HTMLReport with its own defaults, WriteStrategyReports on): every page has the
+    # snapshots of the look-back window as its rows
+    bt_cases = []
+    if not replay:
+        pool = ['bh', 'macd', 'rsi', 'trix', 'bop', 'vwma', 'kdjA']
+        for _ in range(6 if tier == 'quick' else 60):
+            bt_cases.append((rng.choice([1, 2, 4]), 'htmlfull', rng.choice([20, 45, 365]), ','.join(rng.sample(pool, rng.randrange(1, 4))),
+                             rng.randrange(1 << 30), rng.randrange(1, 4), rng.choice([15, 40, 70])))
+    else:
+        bt_cases = [tuple(c) for c in json.load(open(replay)).get('bt_cases', [])]
+    if bt_cases:
+        gb = vlib.run_go(['b%d BT %s' % (i, ' '.join(map(str, c))) for i, c in enumerate(bt_cases)], nproc=4)
+        for i, c in enumerate(bt_cases):
+            g = gb.get('b%d' % i, 'missing')
+            stats['backtest_report_runs'] += 1
+            if not g.startswith('ok fine'):
+                bad += 1
+                res.violation({'bt_cases': [list(c)], 'cases': [], 'go_output': g[:400],
+                               'oracle': 'every strategy report written by a backtest (HTMLReport defaults) has the snapshots of the look-back window as its date rows'})
     for comp, f in findings.items():
         if known.get(comp):
             res.known_hit.append(known_line(f) + ' [%d cases]' % known[comp])
-    res.samples = [{'case': rlines[i][:160] + '…', 'go': go.get('r%d' % i, '')[:160]} for i in (0, len(rlines) // 2)]
+    res.samples = [{'case': rlines[i][:160] + '…'} for i in (0, len(rlines) // 2)]
     res.coverage.update({
         'evaluations': len(cases), 'distinct_nontrivial': len(cells),
         'rule': 'strategy (32 base, 12 compound/decorated) x configuration x regime, series longer than the warm-up; the date channel and every '
                 'column channel of the Report are drained by independent readers (reflection on the private `values` field) and compared',
-        'column_statistics': dict(stats), 'violations_found': bad, 'known_findings_seen': dict(known),
+        'column_statistics': dict(stats), 'reports_with_trades_per_strategy': dict(traded), 'violations_found': bad, 'known_findings_seen': dict(known),
         'traces_validated_against_impl': len(cases), 'trusted_base': vlib.TRUSTED +
         ['the template pulls one value per column per date (helper/report.tmpl: `range .Date` calling .Value on every column), so equal channel lengths = one value per row'],
     })
